@@ -395,7 +395,7 @@ class SimplePatternMatcher(PatternMatcher):
             op_to_nodes: dict[tuple[str, str, str], list[ir.Node]] = {}
             for n in graph_or_function:
                 op_to_nodes.setdefault(n.op_identifier(), []).append(n)
-            all_nodes = iter(graph_or_function)
+            all_nodes = list(graph_or_function)
 
             def get_nodes(pattern_node):
                 id = pattern_node.op_identifier()
